@@ -242,7 +242,7 @@ func (p *distributedPlan) Schema() logical.Schema {
 }
 
 func (p *distributedPlan) Limit(maxVal int) {
-	p.maxTraceSize = uint32(maxVal)
+	p.maxTraceSize = logical.SaturatingUint32(maxVal)
 }
 
 // internalTraceToResult converts a proto *tracev1.InternalTrace (row-oriented:
